@@ -231,6 +231,10 @@ func (p *FloatingIPPlugin) syncPodIP(pod *corev1.Pod) error {
 	if err != nil {
 		return err
 	}
+	if cniArgs == nil {
+		// pod has no cni args annotation
+		return nil
+	}
 	ipInfos := cniArgs.Common.IPInfos
 	for i := range ipInfos {
 		if ipInfos[i].IP == nil || ipInfos[i].IP.IP == nil {
